@@ -184,3 +184,76 @@ def iso4_sample(seed, count):
     else:
         sel = rng.sample(allc, count)
     return [relabel(a, rng) for a in sel]
+
+
+def grounded_mix(seed, count, nlo=5, nhi=8):
+    """frameworks with a non-empty grounded part that defeats arguments attacking a non-grounded part made of even cycles
+    and random attacks (the shape on which acceptance/defeat propagation with counters is delicate)"""
+    rng = random.Random(seed)
+    res = []
+    for _ in range(count):
+        n = rng.randint(nlo, nhi)
+        att = set()
+        nsrc = rng.randint(1, 2)
+        srcs = list(range(1, nsrc + 1))
+        rest = list(range(nsrc + 1, n + 1))
+        # sources defeat one or two arguments
+        defeated = rng.sample(rest, min(len(rest), rng.randint(1, 2)))
+        for d in defeated:
+            att.add((rng.choice(srcs), d))
+        free = [x for x in rest if x not in defeated]
+        # even cycles among the free arguments
+        rng.shuffle(free)
+        for i in range(0, len(free) - 1, 2):
+            att.add((free[i], free[i + 1]))
+            att.add((free[i + 1], free[i]))
+        # defeated arguments attack free ones; free ones attack defeated ones and each other
+        for d in defeated:
+            for t in rng.sample(free, min(len(free), rng.randint(1, 2))) if free else []:
+                att.add((d, t))
+        for _ in range(rng.randint(1, n)):
+            a = rng.choice(free) if free else rng.choice(rest)
+            b = rng.choice(rest)
+            if b not in srcs:
+                att.add((a, b))
+        perm = list(range(1, n + 1))
+        rng.shuffle(perm)
+        res.append(af(n, [(perm[a - 1], perm[b - 1]) for a, b in att], "groundedmix"))
+    return res
+
+
+def large_afs(seed, count, nlo, nhi):
+    """sparse random graphs, layered graphs and unions of cycles with 20-300 arguments (C11)"""
+    rng = random.Random(seed)
+    res = []
+    for i in range(count):
+        n = rng.randint(nlo, nhi)
+        mode = i % 3
+        att = set()
+        if mode == 0:      # sparse random, average out-degree ~1.5, a few self-attacks
+            for a in range(1, n + 1):
+                for _ in range(rng.choice([0, 1, 1, 2, 3])):
+                    att.add((a, rng.randint(1, n)))
+                if rng.random() < 0.03:
+                    att.add((a, a))
+        elif mode == 1:    # layered: attacks go to the next layers, with some back edges
+            layers = rng.randint(3, 8)
+            lay = [rng.randrange(layers) for _ in range(n)]
+            for a in range(1, n + 1):
+                for _ in range(rng.choice([1, 1, 2])):
+                    b = rng.randint(1, n)
+                    if lay[b - 1] > lay[a - 1] or rng.random() < 0.08:
+                        att.add((a, b))
+        else:              # union of cycles of various lengths plus chords
+            a = 1
+            while a <= n:
+                k = min(rng.randint(2, 7), n - a + 1)
+                for j in range(k):
+                    att.add((a + j, a + (j + 1) % k))
+                if k >= 4 and rng.random() < 0.5:
+                    att.add((a, a + 2))
+                a += k
+            for _ in range(n // 10):
+                att.add((rng.randint(1, n), rng.randint(1, n)))
+        res.append(af(n, att, "large%d" % mode))
+    return res
